@@ -418,7 +418,12 @@ def input_case(env: Env, report, user_sym, tags, label="input"):
     user = materialise(user_sym, env.files)
     case = {"stream": "input", "user_symbolic": ci.to_wire(user_sym), "tags": tags}
     before = ci.snapshot(user)
-    status, out = ci.check_input_section(user)
+    cwd = os.getcwd()
+    os.chdir(env.files.root)  # relative file names (the raster really called "NaN") are relative to the file set
+    try:
+        status, out = ci.check_input_section(user)
+    finally:
+        os.chdir(cwd)
     impl = {"status": status, "out": ci.to_wire(out) if status == "ok" else out}
     model = env.lean.call("C17.input", input_schemas=env.data["input"], flags=env.data["flags"], files=env.files.wire(),
                           user=ci.to_wire(user))
@@ -448,7 +453,10 @@ def input_case(env: Env, report, user_sym, tags, label="input"):
     if verdict == "accept":
         report.hit("input_accept_iff_documented:documented")
         if status != "ok":
-            fail(report, "input_accept_iff_documented", "documented_form_refused", case, impl, "every requirement of the documented forms holds")
+            magic = any(isinstance(s_, dict) and any(isinstance(s_.get(k), str) and s_.get(k) in MAGIC for k in ("img", "mask", "classif", "segm", "disp"))
+                        for s_ in (user.get("input", {}).get("left"), user.get("input", {}).get("right")))
+            fail(report, "input_accept_iff_documented", "magic_image_name" if magic else "documented_form_refused", case, impl,
+                 "every requirement of the documented forms holds")
     elif verdict == "reject":
         for c in model["rejecting"]:
             report.hit("input_accept_iff_documented:" + c)
